@@ -18,6 +18,7 @@ import ast
 import itertools
 
 from ..astutil import AnalysisError, dotted, walk_local, src, calls_in, walk_ordered
+from .. import pattern as P
 from ..regionsets import Interp, Sym, regions, input_set
 
 GEN = "cohdl/_compiler/frontend/_generate_ir.py"
@@ -215,10 +216,10 @@ def rule_leaf(run):
     )
     mod = run.idx.mod(GEN)
     chk = mod.func("ConvertInstance.detect_uninitialized_temporaries.<locals>.check_used_temporaries")
-    text = src(chk.node)
+    text = P.T(chk.node)
     asserts = [n for n in walk_local(chk.node) if isinstance(n, ast.Assert)]
-    a_inv = any("not in invalid_temporaries" in src(a.test) for a in asserts)
-    a_wr = any("in written_temporaries" in src(a.test) and "not in" not in src(a.test) for a in asserts)
+    a_inv = any("not in invalid_temporaries" in P.T(a.test) for a in asserts)
+    a_wr = any("in written_temporaries" in P.T(a.test) and "not in" not in P.T(a.test) for a in asserts)
     run.ob(a_inv, "check_used_temporaries", file=mod.rel, line=chk.node.lineno, detail="assert-invalid",
            expected="assert root not in invalid_temporaries on READ", found="present" if a_inv else "missing")
     run.ob(a_wr, "check_used_temporaries", file=mod.rel, line=chk.node.lineno, detail="assert-written",
@@ -229,9 +230,9 @@ def rule_leaf(run):
     # the READ test must be the first-level condition guarding the asserts and must test Temporary
     guards_ok = False
     for n in walk_local(chk.node):
-        if isinstance(n, ast.If) and "AccessFlags.READ" in src(n.test):
+        if isinstance(n, ast.If) and "AccessFlags.READ" in P.T(n.test):
             inner = [x for x in walk_local(n) if isinstance(x, ast.Assert)]
-            if len(inner) >= 2 and "Temporary" in src(n):
+            if len(inner) >= 2 and "Temporary" in P.T(n):
                 guards_ok = True
     run.ob(guards_ok, "check_used_temporaries", file=mod.rel, line=chk.node.lineno, detail="read-guard",
            expected="both assertions executed for READ accesses of Temporary objects", found="ok" if guards_ok else "guard changed")
@@ -251,7 +252,7 @@ def rule_leaf(run):
     if not else_body:
         raise AnalysisError("leaf arm (else) of search_invalid_temporaries not found")
     first = else_body[0]
-    visits_first = isinstance(first, ast.Expr) and "_visit_referenced_objects" in src(first) and "check_used_temporaries" in src(first)
+    visits_first = isinstance(first, ast.Expr) and "_visit_referenced_objects" in P.T(first) and "check_used_temporaries" in P.T(first)
     run.ob(visits_first, "search_invalid_temporaries.leaf", file=mod.rel, line=first.lineno, detail="reads-checked-first",
            expected="statement's reads are checked before its own result is recorded as defined",
            found="ok" if visits_first else src(first)[:80])
@@ -262,7 +263,7 @@ def rule_leaf(run):
     for a in adds:
         g = False
         for anc in pm.ancestors(a):
-            if isinstance(anc, ast.If) and "_maybe_uninitialized" in src(anc.test) and isinstance(anc.test, ast.UnaryOp):
+            if isinstance(anc, ast.If) and "_maybe_uninitialized" in P.T(anc.test) and isinstance(anc.test, ast.UnaryOp):
                 g = True
             if anc is f.node:
                 break
@@ -312,7 +313,7 @@ def rule_order(run):
     # inside the Sequential branch
     found_branch = False
     for n in walk_local(ap.node):
-        if isinstance(n, ast.If) and "out.Sequential" in src(n.test):
+        if isinstance(n, ast.If) and "out.Sequential" in P.T(n.test):
             found_branch = True
             seq = []
             for c in walk_ordered(ast.Module(body=n.body, type_ignores=[])):
@@ -346,11 +347,11 @@ def rule_state_check(run):
     rp = run.idx.mod(REPR)
     f = rp.func("StatemachineContext._check_temporaries")
     loops = [n for n in f.node.body if isinstance(n, ast.For)]
-    ok_loop = bool(loops) and "_states" in src(loops[0].iter)
+    ok_loop = bool(loops) and "_states" in P.T(loops[0].iter)
     if not ok_loop:
         raise AnalysisError("anchor vanished: loop over states in _check_temporaries")
     loop = loops[0]
-    fresh = [s for s in loop.body if isinstance(s, (ast.Assign, ast.AnnAssign)) and "used_temporaries" in src(s.targets[0] if isinstance(s, ast.Assign) else s.target)]
+    fresh = [s for s in loop.body if isinstance(s, (ast.Assign, ast.AnnAssign)) and "used_temporaries" in P.T(s.targets[0] if isinstance(s, ast.Assign) else s.target)]
     run.ob(bool(fresh), "StatemachineContext._check_temporaries", file=rp.rel, line=loop.lineno, detail="fresh-map-per-state",
            expected="used_temporaries is (re)created inside the per-state loop", found="inside loop" if fresh else "hoisted out of the loop / missing")
     chk = None
@@ -364,7 +365,7 @@ def rule_state_check(run):
     a_ok = any(norm_cmp(a.test) for a in asserts)
     run.ob(a_ok, "StatemachineContext._check_temporaries", file=rp.rel, line=chk.node.lineno, detail="first-access-write",
            expected="assert access is AccessFlags.WRITE for the first access", found="ok" if a_ok else "assertion changed: " + "; ".join(src(a.test) for a in asserts))
-    text = src(chk.node)
+    text = P.T(chk.node)
     keyed = "obj._root not in used_temporaries" in text and "used_temporaries[obj._root]" in text
     run.ob(keyed, "StatemachineContext._check_temporaries", file=rp.rel, line=chk.node.lineno, detail="keyed-by-root",
            expected="membership and insertion keyed by obj._root", found="ok" if keyed else "changed")
@@ -466,7 +467,7 @@ def rule_cleanup(run):
     cu = gen.func("ConvertInstance.cleanup_unused")
     finder = gen.func("ConvertInstance.cleanup_unused.<locals>.find_used_temp")
     remover = gen.func("ConvertInstance.cleanup_unused.<locals>.remove_unused_assignments")
-    t = src(finder.node)
+    t = P.T(finder.node)
     ok = "access.is_read()" in t and "isinstance(obj, Temporary)" in t and "used_temporaries.add(root)" in t.replace("obj._root", "root") and "_root" in t
     run.ob(ok, "cleanup_unused.find_used_temp", file=gen.rel, line=finder.node.lineno, detail="collect-reads",
            expected="every read (access.is_read()) of a Temporary marks its root as used", found="ok" if ok else t[:120])
@@ -486,7 +487,7 @@ def rule_cleanup(run):
         n_removals += 1
         guarded = False
         for anc in pm.ancestors(r):
-            if isinstance(anc, ast.If) and "not in used_temporaries" in src(anc.test):
+            if isinstance(anc, ast.If) and "not in used_temporaries" in P.T(anc.test):
                 guarded = True
             if anc is remover.node:
                 break
@@ -509,7 +510,7 @@ def rule_cleanup(run):
 
     cb = gen.func("ConvertInstance.cleanup_bool_cast")
     srch = gen.func("ConvertInstance.cleanup_bool_cast.<locals>.search_unneeded_bool_casts")
-    t = src(srch.node)
+    t = P.T(srch.node)
     conds = ["isinstance(stmt, ir.Boolean)", "isinstance(source, Temporary)", "isinstance(target, Temporary)",
              "source._root is source", "target._root is target", "source.type is _boolean.boolean", "target.type is _boolean.boolean"]
     missing = [c for c in conds if c not in t]
